@@ -14,16 +14,23 @@ from engine import VAdt, VBool, VInt, VOpaque, VRef, VSeq, VStruct, VTuple, VStr
 _PROGRAM = {}
 
 
-def load_program(repo, mir_path, features=("type_prop", "neg_index")):
-    key = (repo, mir_path)
+def load_program(repo, mir_path, features=("type_prop", "neg_index"), extra_mir=None):
+    """`extra_mir`: the dump of extensions/to_sql, loaded into the same program (its functions call
+    into rscel's; types of both crates are read from source)"""
+    key = (repo, mir_path, extra_mir)
     if key in _PROGRAM:
         return _PROGRAM[key]
     T = engine.TypeTable()
-    for f in sorted(glob.glob(os.path.join(repo, "rscel/src/**/*.rs"), recursive=True)):
+    srcs = sorted(glob.glob(os.path.join(repo, "rscel/src/**/*.rs"), recursive=True))
+    if extra_mir:
+        srcs += sorted(glob.glob(os.path.join(repo, "extensions/to_sql/src/**/*.rs"), recursive=True))
+    for f in srcs:
         if "/tests/" in f:
             continue
         T.load_source(open(f).read(), features=features)
     funcs = mirparse.parse_dump(open(mir_path).read())
+    if extra_mir:
+        funcs += mirparse.parse_dump(open(extra_mir).read())
     P = engine.Program(funcs, repo, T)
     _PROGRAM[key] = P
     return P
